@@ -262,7 +262,10 @@ impl<'ast, 'arena> ProgramFacts<'ast, 'arena> {
         }
         self.locals.push(LocalInfo { name, owner, declaring_scope, decl_span, decl_stmt, kind });
         self.scope_locals[declaring_scope.0 as usize].push(id);
-        function.locals_len += 1;
+        // Local ids are handed out in declaration order across the whole program, so a
+        // nested function declared between two locals of its parent interleaves its ids
+        // with the parent's: the range spans from the first to the latest local.
+        function.locals_len = id.0 - function.locals_start + 1;
         id
     }
 
